@@ -299,3 +299,4 @@ def check(facts, rep, tier, cfg):
     import whomay
     whomay.check(facts, rep, "C02.S7", "C02")
     whomay.check_new_statics(facts, rep, "C02.S7", "C02")
+    whomay.check_new_trait_methods(facts, rep, "C02.S7", "C02")
